@@ -3,6 +3,10 @@
 //! validated by TLC against the TLA+ specification (spec/Trace.tla).  The driver computes no
 //! expectation of its own.
 mod common;
+mod grp;
+mod reps;
+mod s_codec;
+mod s_group;
 mod s_conv;
 mod s_field;
 
@@ -19,6 +23,7 @@ pub struct Args {
     pub tier: String,
     pub part: u64,
     pub parts: u64,
+    pub focus: String,
 }
 
 fn parse() -> Args {
@@ -33,6 +38,7 @@ fn parse() -> Args {
         tier: "quick".into(),
         part: 0,
         parts: 1,
+        focus: "all".into(),
     };
     let v: Vec<String> = std::env::args().collect();
     a.suite = v.get(1).cloned().unwrap_or_default();
@@ -46,6 +52,7 @@ fn parse() -> Args {
             "--in" => a.input = v[i + 1].clone(),
             "--tier" => a.tier = v[i + 1].clone(),
             "--part" => a.part = v[i + 1].parse().expect("part"),
+            "--focus" => a.focus = v[i + 1].clone(),
             "--parts" => a.parts = v[i + 1].parse().expect("parts"),
             x => panic!("unknown option {}", x),
         }
@@ -66,6 +73,11 @@ fn main() {
         "fp" => s_field::run_fp(&a, &mut out),
         "fq2" => s_field::run_fq2(&a, &mut out),
         "conv" => s_conv::run(&a, &mut out),
+        "decode" => s_codec::run_decode(&a, &mut out),
+        "affine" => s_codec::run_affine(&a, &mut out),
+        "sqrt" => s_codec::run_sqrt(&a, &mut out),
+        "group" => s_group::run_group(&a, &mut out),
+        "encode" => s_group::run_encode(&a, &mut out),
         s => {
             eprintln!("unknown suite {}", s);
             std::process::exit(2);
